@@ -9,9 +9,16 @@ def parseSpec (j : Json) : Except String Spec := do
     | .bool b => some (.bool b)
     | .num n => some (.int n.mantissa)
     | _ => none
+  -- order: null (None) | "falsy" ('' / [] / {}) | {"m": int, "e": nat} = the exact number m / 10^e | number |
+  --        "unusable" (raises, or a truthy non-number)
   let ord : Order := match j.getObjValD "order" with
+    | .str "falsy" => .value none
     | .str _ => .unusable
     | .num n => .value (some ⟨n.mantissa, n.exponent⟩)
+    | .obj _ =>
+      match (j.getObjValD "order").getObjValD "m", (j.getObjValD "order").getObjValD "e" with
+      | .num m, .num e => .value (some ⟨m.mantissa, e.mantissa.toNat⟩)
+      | _, _ => .unusable
     | _ => .value none
   pure ⟨← getNat j "id", ← getBool j "import_ok", ← getBool j "ctor_ok", sw, ord⟩
 
